@@ -1,6 +1,8 @@
 """Helpers shared by the conch checkers C35-C39 (batch H).  Stdlib + sa engine only."""
 from __future__ import annotations
 
+import re as _re
+
 import ast
 from typing import Callable, Dict, Iterable, List, Optional, Tuple
 
@@ -359,6 +361,9 @@ _SAFE = {"len": len, "ord": ord, "bytes": bytes, "int": int, "min": min, "max": 
          "isinstance": None}
 
 
+_IS_GEN: Dict[int, bool] = {}      # id(FunctionDef) -> contains a yield (the trees live as long as the run)
+
+
 class SelfRef:
     """the value of the name ``self`` inside the model"""
     def __repr__(self):
@@ -415,7 +420,9 @@ class MiniInterp:
     def call(self, *args):
         names = [a.arg for a in self.func.args.args][1:]
         self.loc = dict(zip(names, args))
-        is_gen = any(isinstance(x, (ast.Yield, ast.YieldFrom)) for x in walk_local(self.func))
+        is_gen = _IS_GEN.get(id(self.func))
+        if is_gen is None:
+            is_gen = _IS_GEN[id(self.func)] = any(isinstance(x, (ast.Yield, ast.YieldFrom)) for x in walk_local(self.func))
         self._yielded = []
         try:
             self._block(self.func.body)
@@ -618,7 +625,6 @@ class MiniInterp:
                         return getattr(recv, f.attr)(*args)
                     except (ValueError, TypeError, IndexError) as e:
                         raise ModelError(f"{type(e).__name__}: {e}")
-                import re as _re
                 if isinstance(recv, _re.Pattern) and f.attr in ("search", "match", "fullmatch", "findall", "sub", "subn", "split") \
                         or isinstance(recv, _re.Match) and f.attr in ("start", "end", "span", "group", "groups"):
                     # a module-level regular expression compiled from a constant pattern: matching is delegated to CPython's re
